@@ -356,6 +356,8 @@ def v4_blocks(tier, mode="short", size=None):
         C = v4_group_parts(("E", "CR", "IR", "AR"))
         return [Block(tag + "full", "4.0", A, B, C)]
     s_small, s_36 = size or ("wide", "wide")
+    if mode == "override" and s_small == "min":
+        s_small = "mid"      # the lowest member of every level as well (e.g. SC/SI/SA all None)
     full = dict((g, v4_group_parts(V4_G[g], mode)) for g in V4_G)
     skel = dict((g, v4_group_parts(V4_G[g], mode, v4_skeleton(g, s_36 if g == "g36" else s_small)))
                 for g in ("g1", "g2", "g36", "g4"))
